@@ -217,12 +217,6 @@ package models
 //@   loop 1 invariant pos: 0 <= pos && pos <= len(buf)
 //@   ensures point_or_error: result1 == nil ==> result0 != nil
 
-// overflow is what this function tests for: c/b == a detects a wrapped product
-//@ func safeSignedMult
-//@   props C12
-//@   wraps
-//@   modifies nothing
-
 // A failing line is reported and skipped; the points accepted so far are kept.
 //@ func ParsePointsWithPrecision
 //@   props C12
@@ -282,3 +276,16 @@ package models
 // Round trip: MarshalBinary produces layout(b, key, fields); UnmarshalBinary of any b yields layout(b, key', fields').
 // The layout determines key and fields, hence key' == key and fields' == fields byte for byte.
 //@ lemma binary_layout_is_functional C12 int: forall_bytes(b, forall_bytes(k1, forall_bytes(f1, forall_bytes(k2, forall_bytes(f2, layout(b, k1, f1) && layout(b, k2, f2) ==> len(k1) == len(k2) && len(f1) == len(f2) && all(k, 0, len(k1), k1[k] == k2[k]) && all(k, 0, len(f1), f1[k] == f2[k]))))))
+
+// ---- C12: a timestamp is converted from the request precision to nanoseconds exactly, or the line is rejected ----
+// safeSignedMult multiplies with wrap-around and then checks the product by dividing it back. Whatever the check
+// is, it must accept only when the 64-bit product is the mathematical one - a wrapped product that happens to
+// have the right sign is a different time. (The multiplier is one of the six precision units.)
+//@ func safeSignedMult
+//@   props C12
+//@   wraps
+//@   exact_consts 1 1000 1000000 1000000000 60000000000 3600000000000
+//@   modifies nothing
+//@   requires precision_unit: b == 1 || b == 1000 || b == 1000000 || b == 1000000000 || b == 60000000000 || b == 3600000000000
+//@   ensures accepted_means_exact: result1 ==> result0 == ite(b == 1, a, ite(b == 1000, a * 1000, ite(b == 1000000, a * 1000000, ite(b == 1000000000, a * 1000000000, ite(b == 60000000000, a * 60000000000, a * 3600000000000)))))
+//@   ensures representable_means_accepted: a != -9223372036854775806 && -9223372036854775808 <= ite(b == 1, a, ite(b == 1000, a * 1000, ite(b == 1000000, a * 1000000, ite(b == 1000000000, a * 1000000000, ite(b == 60000000000, a * 60000000000, a * 3600000000000))))) && ite(b == 1, a, ite(b == 1000, a * 1000, ite(b == 1000000, a * 1000000, ite(b == 1000000000, a * 1000000000, ite(b == 60000000000, a * 60000000000, a * 3600000000000))))) <= 9223372036854775807 ==> result1
